@@ -120,6 +120,39 @@ Proof.
   rewrite O, pw_1. unfold cg; f_equal; ring.
 Qed.
 
+(* ---- forward o inverse = identity (the other direction of C02), by the symmetric computation ---- *)
+Theorem fwd_inv y : length y = n -> (forall i, (i < n)%nat -> 0 <= nth i y 0 < p) -> fwd (inv y) = y.
+Proof.
+  intros Hlen Hy.
+  set (b := fun r => nth (rev k r) y 0).
+  assert (G : forall r, (r < n)%nat -> 0 <= nth r (BR y) 0 < 2 * p /\ nth r (BR y) 0 = b r).
+  { intros r Hr. unfold BR. rewrite tab_nth by auto. pose proof (Hy (rev k r) (rev_lt k r)). split; [lia | reflexivity]. }
+  destruct (ntt_list_correct w Hw p Hp H4p om' k om'_half twsi twsi_ok b (BR y) (tab_length _) G) as [LZ Zs].
+  set (W := fun s => (sum (2 ^ k) (fun t => b t * pw om' (t * s))) mod p).
+  assert (Zi : forall s, (s < n)%nat -> nth s (inv y) 0 = (W s * nth s cs 0) mod p).
+  { intros s Hs. unfold inv. rewrite tab_nth by auto. unfold BR at 1. rewrite tab_nth by auto.
+    rewrite Zs by (apply rev_lt). rewrite rev_involutive by exact Hs. reflexivity. }
+  assert (Li : length (inv y) = n) by (unfold inv; apply tab_length).
+  apply (nth_ext _ _ 0 0). { destruct (fwd_nth (inv y) 0%nat Li ltac:(unfold n; apply pow2_pos)) as [L _]. lia. }
+  intros j Hj. destruct (fwd_nth (inv y) 0%nat Li ltac:(unfold n; apply pow2_pos)) as [L0 _]. rewrite L0 in Hj.
+  destruct (fwd_nth (inv y) j Li Hj) as [_ ->].
+  destruct (Hy j Hj) as [Y0 Y1]. rewrite <- (Z.mod_small (nth j y 0) p) by lia.
+  change (cg p (sum n (fun t => nth t (inv y) 0 * pw (psi j) t)) (nth j y 0)).
+  transitivity (ninv * sum n (fun t => sum n (fun u => b u * pw om' (u * t)) * pw om (t * rev k j))).
+  { rewrite Z.mul_comm, <- sum_scale. apply sum_cg; auto. intros t Ht. rewrite (Zi t Ht).
+    transitivity (W t * nth t cs 0 * pw (psi j) t); [apply mul_cg; auto; [unfold cg; now rewrite Z.mod_mod by lia | reflexivity]|].
+    rewrite (cs_ok t Ht). unfold psi. rewrite pw_mul_base, <- pw_mul.
+    transitivity (W t * ((ninv * (pw phi' t * pw phi t)) * pw om (rev k j * t))); [unfold cg; f_equal; ring|].
+    transitivity (sum n (fun u => b u * pw om' (u * t)) * ((ninv * (pw phi' t * pw phi t)) * pw om (rev k j * t))).
+    { apply mul_cg; auto; [|reflexivity]. unfold W, cg. fold n. now rewrite Z.mod_mod by lia. }
+    rewrite <- pw_mul_base. assert (E : cg p (phi' * phi) 1) by (rewrite Z.mul_comm; exact Hinv). rewrite E, pw_1.
+    replace (rev k j * t)%nat with (t * rev k j)%nat by lia. unfold cg; f_equal; ring. }
+  assert (S1 : cg p (sum n (fun t => sum n (fun u => b u * pw om' (u * t)) * pw om (t * rev k j))) (Z.of_nat n * b (rev k j))).
+  { apply (inv_dft p Hp k0 om' om b (rev k j)); [apply om'_half; reflexivity | rewrite Z.mul_comm; apply om_inv | apply rev_lt]. }
+  rewrite S1. unfold b. rewrite rev_involutive by exact Hj.
+  transitivity ((ninv * Z.of_nat n) * nth j y 0); [unfold cg; f_equal; ring|]. rewrite Hninv. unfold cg; f_equal; ring.
+Qed.
+
 Definition pointwise (u v : list Z) : list Z := tab (fun j => (nth j u 0 * nth j v 0) mod p).
 Definition negacyclic (a b : list Z) : list Z :=
   tab (fun i => (negacyc n (fun t => nth t a 0) (fun t => nth t b 0) i) mod p).
@@ -150,3 +183,4 @@ Qed.
 End Roundtrip.
 Print Assumptions inv_fwd.
 Print Assumptions ntt_product.
+Print Assumptions fwd_inv.
